@@ -431,6 +431,12 @@ def curie_join_check(cx: Cx, ob: Ob, fn_name: str, base_pred, base_desc: str) ->
             if tab in (("attr", me, "reverse_prefix_map"), ("attr", me, "trie")) and fn_name == "compress":
                 ob.site(f"{fn.where} {fn.qualname}", "pre-check: no registered URI prefix is a prefix of the argument")
                 continue
+        # a CURIE has a delimiter (C02-D1: _split raises without one): no delimiter, nothing to standardise
+        dl = ("attr", me, "delimiter")
+        no_delim = (pol0 is False and (a0 == ("cmp", "in", dl, arg) or (op(a0) == "item" and is_const(a0[2], 1) and op(a0[1]) == "call" and op(a0[1][1]) == "attr" and a0[1][1][1] == arg and a0[1][1][2] in ("partition", "rpartition") and a0[1][2] == (dl,))))
+        if no_delim and fn_name == "standardize_curie":
+            ob.site(f"{fn.where} {fn.qualname}", "pre-check: no delimiter in the argument")
+            continue
         line = o[2] if o is not None and len(o) > 2 else fn.node.lineno
         if line in seen_lines:
             continue
